@@ -48,8 +48,8 @@ type EnvRec struct {
 	BadMd  int    `json:"badmd"`  // 1 if some -bin header value is not valid base64
 	BadTmd int    `json:"badtmd"` // same for the trailer metadata
 	Rtype  string `json:"rtype"`
-	Rec    int    `json:"rec"` // length of proxy_record
-	Nxt    int    `json:"nxt"` // length of proxy_next
+	Rec    int    `json:"rec"`  // length of proxy_record
+	Nxt    int    `json:"nxt"`  // length of proxy_next
 	Rs     string `json:"rs"`   // proxy_record, comma-joined
 	Ns     string `json:"ns"`   // proxy_next, comma-joined
 	Rret   string `json:"rret"` // the return route a reply to this envelope carries: the record without its last hop
